@@ -3,7 +3,7 @@
   the slice of the document starting there.
 -/
 import CedarGoProofs.Lemmas.C18Pos
-namespace CedarGo.Text
+namespace CedarGo.Text.Lx
 
 /-- the pure lexer with a `tokEnd` that recomputes position and text from the recorded token start -/
 def checkSrc (doc : List UInt8) : Src PState :=
@@ -136,4 +136,4 @@ theorem rawTokens_positions (doc : List UInt8) (fails : Bool) (hne : doc ≠ [])
       exact (List.prefix_iff_eq_take.1 (List.take_prefix _ _)).symm
     · rw [h1]; simp
 
-end CedarGo.Text
+end CedarGo.Text.Lx
